@@ -130,6 +130,11 @@ void Ruleset::prerun(OomdContext& context) {
   for (const auto& action : action_group_) {
     action->prerun(context);
   }
+  // per-cgroup instances of a ruleset-level cgroup ruleset hold their own
+  // plugin objects, which rely on prerun() every interval like any plugin
+  for (const auto& runnable : runnable_rulesets_) {
+    runnable.second->prerun(context);
+  }
 }
 
 uint32_t Ruleset::runOnce(OomdContext& context) {
